@@ -156,8 +156,37 @@ def mapPhiOp (j : Json) : Except String Json := do
   pure (resToJson (fun m => Json.mkObj [("mapped", omatToJson m), ("disp", omatToJson (displace coord m sign))])
     (mapPhi phi names mp cs))
 
+def orowToJson (r : List (Option Rat)) : Json := listToJson oratToJson r
+
+/-- the arguments of `c19_defgeo1` plus `"phi":[..]`, `"scale":"p/q"` → the arrows `[[start, end]]`
+    of `def_geo1` followed by `plot_mode_geo1` -/
+def plotGeo1Op (j : Json) : Except String Json := do
+  let nm ← namesOfJson (← field j "names")
+  let r ← refOfJson (fieldD j "ref_ind" .null)
+  let co ← tblOfJson (← field j "coord")
+  let di ← arrArgOfJson (← field j "dir")
+  let phi ← listOf ratOfJson (← field j "phi")
+  let sc ← ratOfJson (← field j "scale")
+  pure (resToJson (listToJson fun a => Json.arr #[orowToJson a.1, orowToJson a.2])
+    (defPlotGeo1 nm co di (← oarrArg j "lines") (← oarrArg j "bgNodes") (← oarrArg j "bgLines")
+      (← oarrArg j "bgSurf") r phi sc))
+
+/-- the arguments of `c19_defgeo2` plus `"phi"`, `"scale"` → the points of `def_geo2` followed by
+    `plot_mode_geo2_mpl` -/
+def plotGeo2Op (j : Json) : Except String Json := do
+  let nm ← namesOfJson (← field j "names")
+  let r ← refOfJson (fieldD j "ref_ind" .null)
+  let pt ← tblOfJson (← field j "pts")
+  let mp ← tblOfJson (← field j "map")
+  let phi ← listOf ratOfJson (← field j "phi")
+  let sc ← ratOfJson (← field j "scale")
+  pure (resToJson omatToJson
+    (defPlotGeo2 nm pt mp (← oarrArg j "cstr") (← oarrArg j "sign") (← oarrArg j "lines") (← oarrArg j "surf")
+      (← oarrArg j "bgNodes") (← oarrArg j "bgLines") (← oarrArg j "bgSurf") r phi sc))
+
 def ops : List (String × (Json → Except String Json)) :=
   [("c19_flatten", flattenOp), ("c19_geo1", geo1Op), ("c19_geo2", geo2Op),
-   ("c19_defgeo1", defGeo1Op), ("c19_defgeo2", defGeo2Op), ("c19_mapphi", mapPhiOp)]
+   ("c19_defgeo1", defGeo1Op), ("c19_defgeo2", defGeo2Op), ("c19_mapphi", mapPhiOp),
+   ("c19_plotgeo1", plotGeo1Op), ("c19_plotgeo2", plotGeo2Op)]
 
 end PV.Ops.C19
